@@ -27,7 +27,7 @@ REAL_VS_STUB = dict(real=["metric_learn", "numpy", "scipy", "scikit-learn (roc_a
                     stub=["preprocessor PointStore", "ambient RNG state", "simulated clock"])
 ASSUMPTIONS = ["'learned distance' is the estimator's own pair_distance on the formed pairs; it is "
                "additionally compared with ||L(x-x')|| computed from components_ at a loose tolerance "
-               "(1e-7 relative + 1e-10 |L|^2 |x-x'|^2 on squared distances)",
+               "(1e-9 relative + 1e-10 |L|^2 |x-x'|^2 on squared distances; also for single-precision tuples)",
                "tuples built by translation on a dyadic grid have exactly equal compared distances "
                "whatever the metric: they must be treated as ties",
                "decision_function vs distance compared within 2 ulp; predictions compared exactly "
@@ -247,8 +247,8 @@ def _check_geometry(self, m, h, est, formed, ts, df, pred, info):
   for i, j in cmp_pairs:
     v = F[:, j] - F[:, i]
     ref2 = ((v.dot(L.T)) ** 2).sum(axis=1)
-    got = np.asarray(est.pair_distance(F[:, [i, j]]), dtype=float)
-    tol = 1e-7 * ref2 + 1e-10 * nL2 * (v ** 2).sum(axis=1) + 1e-300
+    got = np.asarray(est.pair_distance(np.asarray(formed)[:, [i, j]]), dtype=float)   # in the caller's dtype
+    tol = 1e-9 * ref2 + 1e-10 * nL2 * (v ** 2).sum(axis=1) + 1e-300
     bad = np.abs(got ** 2 - ref2) > tol
     if np.any(bad):
       k = int(np.argmax(bad))
@@ -258,6 +258,8 @@ def _check_geometry(self, m, h, est, formed, ts, df, pred, info):
   m.cov["learned_distance_checked"] += 1
   if info and info.get("far"):
     m.cov["far_offset_probes"] += 1
+  if info and info.get("f32"):
+    m.cov["float32_probes"] += 1
   if not info or not info.get("ties"):
     return
   rows = [r_ for r_ in info["ties"] if r_ < len(F)]
